@@ -11,8 +11,11 @@ model is proved equal to them; classification is definitional over the regenerat
 disagreement between the Go package and the model on `h5`/`xc`/`x`/`dec`/`url`/`tag`/`attr` is
 therefore a concrete C07 counterexample** and is reported with the input as the replay.
 
-Proved: bogus comments and doctype end at the first `>` (C17), quoted values at the first quote,
-classification characterisations below, totality and in-bounds of all 20 state functions (C02).
+Proved: every delimited construct ends at its first terminator and scanning resumes right after it —
+bogus comments and doctype at the first `>`, quoted values at the first quote, `<![CDATA[` at the first
+`]]>`, `<% %>` at the first `%>`, `<!-- -->` at the first `-` NUL* (`-`|`!`) `>` (C17); `IsXSS` is the
+disjunction of the five contexts; classification characterisations below; totality and in-bounds of
+all 20 state functions (C02).
 The shipped defects D1–D3 are exactly the places where such lemmas were false for the shipped code
 (`C02.cdata_shipped_guard_panics`). -/
 namespace LibInj.Properties.C07
@@ -39,10 +42,45 @@ theorem tokenizer_conforms (s : Bytes) (ctx : Nat) :
     ∃ ts, tokens s ctx = .ok ts ∧ (∀ t ∈ ts, t.off + t.len ≤ s.length) :=
   C17.tokens_inside_input s ctx
 
-/-- what remains (kept visible): `%>`, `]]>`, `-->`/`-!>` first-terminator refinements -/
-def cdata_refines_statement : Prop :=
-  ∀ (h : H) (i : Nat), h.pos ≤ h.s.length → indexOf (h.s.drop h.pos) [93, 93, 62] = some i →
-    ∃ h', stateCData h = .ok (true, h') ∧ h'.tokLen = i ∧ h'.pos = h.pos + i + 3
+/-- `<![CDATA[ .. ]]>` ends at the first `]]>` (the shipped guard, defect D1, made this false) -/
+theorem cdata_refines (h : H) (hp : h.pos ≤ h.s.length) :
+    (∀ i, Term3 h.s 93 93 62 i → h.pos ≤ i → (∀ j, h.pos ≤ j → j < i → ¬ Term3 h.s 93 93 62 j) →
+      stateCData h = foundAt h .dataText i 3) ∧
+    ((∀ i, h.pos ≤ i → ¬ Term3 h.s 93 93 62 i) → stateCData h = ranOut h .dataText) :=
+  C17.cdata_first_terminator h hp
+
+/-- `<% .. %>` ends at the first `%>` (defect D2 made this false) -/
+theorem percent_refines (h : H) (hp : h.pos ≤ h.s.length) :
+    (∀ i, Term2 h.s 37 62 i → h.pos ≤ i → (∀ j, h.pos ≤ j → j < i → ¬ Term2 h.s 37 62 j) →
+      stateBogusComment2 h = foundAt h .tagComment i 2) ∧
+    ((∀ i, h.pos ≤ i → ¬ Term2 h.s 37 62 i) → stateBogusComment2 h = ranOutEnd h .tagComment) :=
+  C17.percent_first_terminator h hp
+
+/-- `<!-- ..` ends at the first `-` NUL* (`-`|`!`) `>` -/
+theorem comment_refines (h : H) (hp : h.pos ≤ h.s.length) :
+    (∀ i n, ComEnd h.s i n → h.pos ≤ i → (∀ j m, h.pos ≤ j → j < i → ¬ ComEnd h.s j m) →
+      stateComment h = foundAt h .tagComment i (n + 3)) ∧
+    ((∀ i n, h.pos ≤ i → ¬ ComEnd h.s i n) → stateComment h = ranOut h .tagComment) :=
+  C17.comment_first_terminator h hp
+
+/-- bogus comments (`<!x`, `<?x`, `</!x`) and doctype end at the first `>` -/
+theorem bogus_refines (h : H) (hp : h.pos ≤ h.s.length) (i : Nat) (hi : indexByte (h.s.drop h.pos) 62 = some i) :
+    (∃ h', stateBogusComment h = .ok (true, h') ∧ h'.tokStart = h.pos ∧ h'.tokLen = i ∧ h'.pos = h.pos + i + 1) ∧
+    (∃ h', stateDoctype h = .ok (true, h') ∧ h'.tokStart = h.pos ∧ h'.tokLen = i ∧ h'.pos = h.pos + i + 1) := by
+  obtain ⟨h1, e1, a1, b1, c1, _⟩ := (C17.bogus_comment_first_gt h hp).1 i hi
+  obtain ⟨h2, e2, a2, b2, c2, _⟩ := C17.doctype_first_gt h hp i hi
+  exact ⟨⟨h1, e1, a1, b1, c1⟩, ⟨h2, e2, a2, b2, c2⟩⟩
+
+/-- the five contexts are tried in order and `IsXSS` is their disjunction (C13) -/
+def contexts_statement : Prop :=
+  ∀ (s : Bytes) (a b c d e : Bool), isXSSCtx s 0 = .ok a → isXSSCtx s 1 = .ok b → isXSSCtx s 2 = .ok c →
+    isXSSCtx s 3 = .ok d → isXSSCtx s 4 = .ok e → isXSS s = .ok (a || b || c || d || e)
+
+theorem contexts_refine : contexts_statement := by
+  intro s a b c d e ha hb hc hd he
+  unfold isXSS
+  simp only [ha, hb, hc, hd, he, bind, Except.bind, pure, Except.pure]
+  cases a <;> cases b <;> cases c <;> cases d <;> cases e <;> rfl
 
 example : isBlackTag [115, 99, 0, 114, 105, 112, 116] = true ∧ isBlackTag [115, 99] = false := by decide +kernel
 
